@@ -148,9 +148,9 @@ Fixpoint subst_args (i : Z) (args : list (option marg)) (text : list ch) : list 
   | a :: r => subst_args (i + 1) r (replace_all (S (List.length text)) ([35; 63] ++ show_int i) (marg_to_s a) text)
   end.
 
-Definition ls_of_song (s : song) : lexstate := mkLex (s_timebase s) (s_logs s) (s_vars s).
+Definition ls_of_song (s : song) : lexstate := mkLex (s_timebase s) (s_logs s) (s_vars s) (s_rhythm s).
 Definition song_with_ls (s : song) (ls : lexstate) : song :=
-  s_set_vars (s_set_logs (s_set_timebase s (lx_timebase ls)) (lx_logs ls)) (lx_vars ls).
+  s_set_rhythm (s_set_vars (s_set_logs (s_set_timebase s (lx_timebase ls)) (lx_logs ls)) (lx_vars ls)) (lx_rhythm ls).
 
 Section Exec.
   (* exec() of the children of Sub / Div: supplied with one unit less of nesting fuel *)
